@@ -16,24 +16,27 @@ Proof. intros H. apply nth_error_Some. congruence. Qed.
 Lemma serve_other s a o b : a <> b -> b < length s -> nth_error (fst (serve s a o)) b = nth_error s b.
 Proof.
   intros Hne Hb. unfold serve.
-  destruct (nth_error s a) as [[l|d|z|made]|] eqn:Ea; cbn [fst]; auto.
+  destruct (nth_error s a) as [[l|d|z|made|ns]|] eqn:Ea; cbn [fst]; auto.
   - destruct (apply_list l o) as [[l' r]|]; cbn [fst]; auto. now apply nth_error_set_obj_other.
   - destruct (apply_dict d o) as [[d' r]|]; cbn [fst]; auto. now apply nth_error_set_obj_other.
   - destruct o; cbn [fst]; auto. now apply nth_error_set_obj_other.
   - destruct o; cbn [fst]; auto.
     + rewrite nth_error_app1 by (rewrite set_obj_length; exact Hb). now apply nth_error_set_obj_other.
-    + destruct (nth_error made i) as [j|]; cbn [fst]; auto. destruct (nth_error s j) as [[| | |]|]; cbn [fst]; auto.
+    + destruct (nth_error made i) as [j|]; cbn [fst]; auto. destruct (nth_error s j) as [[| | | |]|]; cbn [fst]; auto.
+  - destruct o; cbn [fst]; auto; try (now apply nth_error_set_obj_other);
+      destruct (d_get k ns); cbn [fst]; auto; now apply nth_error_set_obj_other.
 Qed.
 
 Lemma serve_length s a o : length s <= length (fst (serve s a o)).
 Proof.
   unfold serve.
-  destruct (nth_error s a) as [[l|d|z|made]|] eqn:Ea; cbn [fst]; auto.
+  destruct (nth_error s a) as [[l|d|z|made|ns]|] eqn:Ea; cbn [fst]; auto.
   - destruct (apply_list l o) as [[l' r]|]; cbn [fst]; rewrite ?set_obj_length; auto.
   - destruct (apply_dict d o) as [[d' r]|]; cbn [fst]; rewrite ?set_obj_length; auto.
   - destruct o; cbn [fst]; rewrite ?set_obj_length; auto.
   - destruct o; cbn [fst]; rewrite ?app_length, ?set_obj_length; auto; try lia.
-    destruct (nth_error made i) as [j|]; cbn [fst]; auto. destruct (nth_error s j) as [[| | |]|]; cbn [fst]; auto.
+    destruct (nth_error made i) as [j|]; cbn [fst]; auto. destruct (nth_error s j) as [[| | | |]|]; cbn [fst]; auto.
+  - destruct o; cbn [fst]; rewrite ?set_obj_length; auto; destruct (d_get k ns); cbn [fst]; rewrite ?set_obj_length; auto.
 Qed.
 
 (* a request to a list, dict or Value is the direct call on that object *)
@@ -42,18 +45,20 @@ Lemma serve_plain s a x o :
   serve s a o = (set_obj a (fst (apply_plain x o)) s, snd (apply_plain x o)) \/
   (serve s a o = (s, snd (apply_plain x o)) /\ fst (apply_plain x o) = x).
 Proof.
-  intros Ha Hp. unfold serve, apply_plain. rewrite Ha. destruct x as [l|d|z|made]; try discriminate.
+  intros Ha Hp. unfold serve, apply_plain. rewrite Ha. destruct x as [l|d|z|made|ns]; try discriminate.
   - destruct (apply_list l o) as [[l' r]|]; cbn [fst snd]; auto.
   - destruct (apply_dict d o) as [[d' r]|]; cbn [fst snd]; auto.
   - destruct o; cbn [fst snd]; auto.
+  - destruct o; cbn [fst snd]; auto; destruct (d_get k ns); cbn [fst snd]; auto.
 Qed.
 
 Lemma apply_plain_plain x o : is_plain x = true -> is_plain (fst (apply_plain x o)) = true.
 Proof.
-  intros H. unfold apply_plain. destruct x as [l|d|z|made]; try discriminate.
+  intros H. unfold apply_plain. destruct x as [l|d|z|made|ns]; try discriminate.
   - destruct (apply_list l o) as [[l' r]|]; reflexivity.
   - destruct (apply_dict d o) as [[d' r]|]; reflexivity.
   - destruct o; reflexivity.
+  - destruct o; try reflexivity; destruct (d_get k ns); reflexivity.
 Qed.
 
 Definition ops_to (a : nat) (reqs : list (nat * op)) : list op := map snd (filter (fun p => Nat.eqb (fst p) a) reqs).
@@ -92,12 +97,13 @@ Qed.
 (* a call that raises leaves the object as it was *)
 Lemma error_leaves_state x o c arg : snd (apply_plain x o) = RErr c arg -> fst (apply_plain x o) = x.
 Proof.
-  unfold apply_plain. destruct x as [l|d|z|made]; cbn [fst snd]; auto.
+  unfold apply_plain. destruct x as [l|d|z|made|ns]; cbn [fst snd]; auto.
   - destruct (apply_list l o) as [[l' r]|] eqn:E; cbn [fst snd]; auto. intros ->.
     unfold apply_list in E. destruct o; try discriminate; break_match_hyp E; inv E; reflexivity.
   - destruct (apply_dict d o) as [[d' r]|] eqn:E; cbn [fst snd]; auto. intros ->.
     unfold apply_dict in E. destruct o; try discriminate; break_match_hyp E; inv E; reflexivity.
   - destruct o; cbn [fst snd]; auto; discriminate.
+  - destruct o; cbn [fst snd]; auto; destruct (d_get k ns); cbn [fst snd]; auto; discriminate.
 Qed.
 
 (* a value returned through managed() is hosted: the answer is a proxy to it, and what the owner sees of it is its
